@@ -9,7 +9,7 @@ import (
 	"verifharness/internal/val"
 )
 
-var c06Floor = []string{"distinct", "distinct.star", "distinct.multi", "distinct.dups", "distinct.lookalike", "distinct.grouped", "distinct.derived", "distinct.cte", "union.all", "union.distinct", "union.mixed", "chain.2", "chain.3", "chain.4", "union.limit", "union.limit.offset", "union.dups", "where", "badutf8", "union.cte", "union.cte.chain3", "branch.window"}
+var c06Floor = []string{"distinct", "distinct.star", "distinct.multi", "distinct.dups", "distinct.lookalike", "distinct.grouped", "distinct.derived", "distinct.cte", "union.all", "union.distinct", "union.mixed", "chain.2", "chain.3", "chain.4", "union.limit", "union.limit.offset", "union.dups", "table.large", "reexec", "where", "badutf8", "union.cte", "union.cte.chain3", "branch.window"}
 
 func init() {
 	fw.Register(&fw.Prop{
@@ -47,6 +47,17 @@ func c06Table(c *fw.Case, name string) *gen.Table {
 		c.Feature("badutf8")
 	}
 	n := c.Intn(pick(c.Tier, 11, 30))
+	if name == "t1" && (c.Idx%40 == 13 || c.Chance(0.004)) {
+		// a large table (the engine may treat large inputs differently), of
+		// any size modulo small worker counts, mostly distinct rows with
+		// repeats of earlier rows anywhere, the last rows included
+		n = 250 + c.Intn(800)
+		pool = nil
+		for i, k := 0, n/2+c.Intn(n); i < k; i++ {
+			pool = append(pool, float64(i))
+		}
+		c.Feature("table.large")
+	}
 	for i := 0; i < n; i++ {
 		row := map[string]any{"a": gen.Pick(c.R, pool), "b": gen.Pick(c.R, pool)}
 		switch c.Intn(5) {
@@ -169,6 +180,7 @@ func c06Run(c *fw.Case) {
 		if len(want) < len(p.Rows) && len(want) >= 2 {
 			c.Nontrivial(dsql + "|" + val.Canon(t1.Array()))
 		}
+		c06Again(c, doc(), dsql, want)
 		return
 	}
 	// union chain
@@ -320,5 +332,29 @@ func c06Run(c *fw.Case) {
 	}
 	if len(acc) >= 3 {
 		c.Nontrivial(sql + "|" + val.Canon(t1.Array()) + val.Canon(t2.Array()))
+	}
+	c06Again(c, doc(), sql, want)
+}
+
+// c06Again: in a share of the cases the statement is built once and executed
+// three times; every execution returns what the first returned.
+func c06Again(c *fw.Case, doc map[string]any, sql string, want []any) {
+	if c.Idx%5 != 2 && !c.Chance(0.1) {
+		return
+	}
+	q, nerr := newSafe(doc, sql)
+	if q == nil {
+		c.Violate("error", fmt.Sprintf("statement could not be built a second time: %v", nerr.Describe()), map[string]any{"sql": sql, "doc": doc})
+		return
+	}
+	c.Feature("reexec")
+	for i := 1; i <= 3; i++ {
+		o := execBuilt(q)
+		c.Evals(1)
+		if !o.OK() || !(len(o.Rows) == 0 && len(want) == 0) && !val.SameSeq(o.Rows, want) {
+			c.Violate("reexec", fmt.Sprintf("execution %d of the same Query returned %d rows, expected %d: got %s want %s", i, len(o.Rows), len(want), short(fmt.Sprint(o.Describe()), 300), short(val.Canon(want), 300)),
+				map[string]any{"sql": sql, "doc": doc, "execution": i, "observed": o.Describe(), "expected": val.Show(want)})
+			return
+		}
 	}
 }
